@@ -49,6 +49,7 @@ extern void simLogFlush(void);
 extern void simSbrkRefuse(unsigned long n);
 extern unsigned long simSbrkRefusePending(void);
 extern int simSbrkForeign(unsigned long pages);
+extern char *simLastForeign(unsigned long *pages);
 extern char *simArenaBase(void);
 extern char *simArenaBrk(void);
 extern unsigned long simForcedGcCount(void);
@@ -71,7 +72,10 @@ static int mayBeRefused(unsigned long bytes)
 #define NOPTRCODE 31
 static unsigned long LIVE_CAP = 48UL << 20;	/* cfg livecap N (MB) raises it for histories with huge blocks */
 
-enum { K_EXACT = 'e', K_INTERIOR = 'i', K_HEAP = 'h', K_DROPPED = 'd' };
+enum { K_EXACT = 'e', K_INTERIOR = 'i', K_HEAP = 'h', K_DROPPED = 'd', K_FOREIGN = 'g' };
+/* K_FOREIGN: the only root word lies in memory that somebody else obtained from the OS between
+ * two of the allocator's requests (a foreign run in the page map, or beyond the heap's end):
+ * store.c lists that memory among the places it scans for roots. */
 
 struct blk {
 	unsigned long ax;	/* address ^ XM */
@@ -83,6 +87,7 @@ struct blk {
 	long          holder;	/* index of the block whose first word points here, or -1 */
 	long          child;	/* index of the block this one's first word points to, or -1 */
 	long          rootIx;	/* index in roots[], or -1 */
+	unsigned long *fslot;	/* K_FOREIGN: the word in foreign memory that holds the root, or 0 */
 	unsigned long dropEpoch;/* collection epoch at which it was dropped */
 	long          livePos;	/* position in live[] or -1 */
 };
@@ -191,15 +196,44 @@ static long rootAlloc(void)
 	return nFreeRoot ? freeRoot[--nFreeRoot] : nRoots++;
 }
 
+#define FOREIGN_PATTERN 0x4645524f464e4721UL
+#define MAXFREG 64
+static unsigned long nForeignRoots;
+static struct { char *base; unsigned long pages; long used; } freg[MAXFREG];	/* foreign regions owned by the harness */
+static int nFreg;
+
+/* A fresh word of foreign memory: the last page of a region first, downwards from its end. */
+static unsigned long *foreignSlot(unsigned long salt)
+{
+	int tries;
+	if (!nFreg) return 0;
+	for (tries = 0; tries < nFreg; tries++) {
+		int r = (int) ((salt + (unsigned long) tries) % (unsigned long) nFreg);
+		long cap = (long) (freg[r].pages * 4096 / 8);
+		if (freg[r].used < cap) {
+			freg[r].used++;
+			nForeignRoots++;
+			return (unsigned long *) (freg[r].base + freg[r].pages * 4096) - freg[r].used;
+		}
+	}
+	return 0;
+}
+
 static void rootClear(struct blk *b)
 {
+	if (b->fslot) { *b->fslot = FOREIGN_PATTERN; b->fslot = 0; }
 	if (b->rootIx >= 0) { roots[b->rootIx] = 0; freeRoot[nFreeRoot++] = b->rootIx; b->rootIx = -1; }
 }
 
 static void rootSet(struct blk *b)
 {
 	char *a = addrOf(b);
-	if (b->kind == K_EXACT) { if (b->rootIx < 0) b->rootIx = rootAlloc(); roots[b->rootIx] = a; }
+	if (b->kind == K_FOREIGN && !b->fslot) {
+		b->fslot = foreignSlot(b->stream);
+		if (!b->fslot) b->kind = K_EXACT;	/* no foreign memory (left): an ordinary root */
+	}
+	if (b->kind == K_FOREIGN) *b->fslot = (unsigned long) a;
+	else if (b->kind == K_EXACT) { if (b->rootIx < 0) b->rootIx = rootAlloc(); roots[b->rootIx] = a; }
 	else if (b->kind == K_INTERIOR) {
 		unsigned long off = b->act > 1 ? mix(b->stream) % b->act : 0;
 		if (b->rootIx < 0) b->rootIx = rootAlloc();
@@ -214,7 +248,7 @@ static int isRooted(struct blk *b)
 {
 	long guard = nLive + 2;
 	while (guard-- > 0) {
-		if (b->kind == K_EXACT || b->kind == K_INTERIOR) return 1;
+		if (b->kind == K_EXACT || b->kind == K_INTERIOR || b->kind == K_FOREIGN) return 1;
 		if (b->kind != K_HEAP || b->holder < 0) return 0;
 		if (!traced(&B[b->holder])) return 0;
 		b = &B[b->holder];
@@ -370,7 +404,7 @@ static long opAlloc(unsigned long bytes, unsigned code, int kind)
 	b->ax = (unsigned long) p ^ XM;
 	b->req = bytes; b->act = stoSize(p); b->code = code & 31; b->kind = kind;
 	b->stream = mix(seed0 * 1000003UL + (unsigned long) nB);
-	b->holder = b->child = -1; b->rootIx = -1; b->livePos = -1;
+	b->holder = b->child = -1; b->rootIx = -1; b->livePos = -1; b->fslot = 0;
 	fill(p, bytes, b->stream, 0);
 	liveAdd(nB);
 	rootSet(b);
@@ -390,6 +424,7 @@ static void opFree(long ix)
 	unsigned long fb = freeBad;
 	long c;
 	checkBlock(ix, "before free");
+	if (keepStaleRoot && b->fslot) b->fslot = 0;	/* the stale word stays behind in foreign memory */
 	if (keepStaleRoot && b->rootIx >= 0) {
 		/* The owner keeps a pointer it will never use again: legal, and a conservative
 		 * collector must cope with root words that point into free storage. */
@@ -581,7 +616,13 @@ int main(int argc, char **argv)
 		case 't': stoTune(); noteNatural(); break;
 		case 'u': doAudit(); break;
 		case 'x': sscanf(line, "x %lu", &a); simSbrkRefuse(a); break;
-		case 'o': sscanf(line, "o %lu", &a); simSbrkForeign(a); break;
+		case 'o':
+			sscanf(line, "o %lu", &a);
+			if (simSbrkForeign(a) && nFreg < MAXFREG) {
+				unsigned long pg; char *fb2 = simLastForeign(&pg);
+				freg[nFreg].base = fb2; freg[nFreg].pages = pg; freg[nFreg].used = 0; nFreg++;
+			}
+			break;
 		case 'v': sscanf(line, "v %lu", &a); stoCtl(StoCtl_GcLevel, (int) a); break;
 		case 'w': sscanf(line, "w %lu", &a); if (!washSet && !nB) { stoCtl(StoCtl_Wash, (int) a); washSet = 1; } break;
 		case 'k': {	/* a chain of n blocks, each holding the previous one through its FIRST word
@@ -620,8 +661,8 @@ int main(int argc, char **argv)
 	step++;
 	fullCheck("final");
 	doAudit();
-	printf("OK steps=%lu allocs=%lu nulls=%lu frees=%lu resizes=%lu gcs=%lu natural=%lu audits=%lu fullchecks=%lu maxlive=%lu oom=%lu own=%lu\n",
-	       step - 1, nAllocOk, nAllocNull, nFreeOp, nResize, nGcOp, natSeen, nAuditOp, nFullCheck, maxLive, oomSeen, stoBytesOwn);
+	printf("OK steps=%lu allocs=%lu nulls=%lu frees=%lu resizes=%lu gcs=%lu natural=%lu audits=%lu fullchecks=%lu maxlive=%lu oom=%lu own=%lu froots=%lu\n",
+	       step - 1, nAllocOk, nAllocNull, nFreeOp, nResize, nGcOp, natSeen, nAuditOp, nFullCheck, maxLive, oomSeen, stoBytesOwn, nForeignRoots);
 	fflush(stdout);
 	return 0;
 }
